@@ -186,9 +186,6 @@ def one_run(cfg, res, tag, fail_at=None):
     if fail_at is not None:
         ctx.extra["lagrange_fail_at"] = fail_at
     run = gen.run_cfg(cfg, ctx=ctx, timeout=(150 if cfg.get("proj") else 60))
-    if fail_at is not None and ctx.extra.get("lagrange_failed_from"):
-        k = "failpoint_fired_in|" + ctx.extra["lagrange_failed_from"]
-        res["stats"][k] = res["stats"].get(k, 0) + 1
     oracles.common_stats(run, res["stats"])
     check(run, cfg, res, tag)
     if run.timeout:
@@ -231,6 +228,10 @@ def run_case(case):
         js = sorted(set(int(v) for v in np.unique(np.linspace(1, max(L, 1), 10).astype(int)))) if L else []
         for j in js:
             one_run(cfg, res, "LinAlgError injected at Lagrange solve %d of %d" % (j, L), fail_at=j)
+            nder += 1
+            res["stats"]["failpoint_runs"] = res["stats"].get("failpoint_runs", 0) + 1
+        for c2 in campaign.failpoint_cfgs(cfg, ref, max_lagrange=0, max_ratio=6):
+            one_run(c2, res, "'model increases' verdict injected at acceptance test %d of %d" % (c2["_derived"]["j"], c2["_derived"]["of"]))
             nder += 1
             res["stats"]["failpoint_runs"] = res["stats"].get("failpoint_runs", 0) + 1
     if case["i"] % 80 == 0 or typ == "pinned":
